@@ -439,5 +439,66 @@ theorem machineWith_sound {P : FV → Prop} {c : Checks} (hc : ChecksSoundOn P c
             rw [List.all_eq_true] at h
             exact stateWith_sound hc (hP.probs s hs) (h s hs)
 
+/-! ### off NaN the two comparison styles give the same judgement -/
+
+theorem transLoop_cur_eq_fixed (n : Nat) : ∀ (ts : List Trans) (seen : List Nat) (sum : FV),
+    (∀ t ∈ ts, val32 t.prob ≠ .nan) →
+    transLoopWith checksCur n ts seen sum = transLoopWith checksFixed n ts seen sum := by
+  intro ts
+  induction ts with
+  | nil => intro _ _ _; rfl
+  | cons t ts ih =>
+    intro seen sum hnn
+    have ht : val32 t.prob ≠ .nan := hnn t List.mem_cons_self
+    have hp : checksCur.probBad (val32 t.prob) = checksFixed.probBad (val32 t.prob) :=
+      probBadCur_eq_fixed ht
+    simp only [transLoopWith, hp]
+    rw [ih _ _ (fun t' ht' => hnn t' (List.mem_cons_of_mem _ ht'))]
+
+theorem transVec_cur_eq_fixed (n : Nat) (ts : List Trans) (hnn : ∀ t ∈ ts, val32 t.prob ≠ .nan) :
+    transVecWith checksCur n ts = transVecWith checksFixed n ts := by
+  unfold transVecWith
+  rw [transLoop_cur_eq_fixed n ts [] zero hnn]
+  cases hl : transLoopWith checksFixed n ts [] zero with
+  | none => rfl
+  | some sum =>
+    -- the loop passed, so every probability is in (0,1] and the sum is not NaN
+    obtain ⟨_, _, _, i4, i5⟩ := transLoopWith_spec checksFixed n ts [] zero sum hl
+    have hprobs : ∀ t ∈ ts, Prob (val32 t.prob) := fun t ht => probBadFixed_sound (i4 t ht)
+    have hsn : sum ≠ .nan := by
+      rw [i5]
+      exact nonNegOrInf_ne_nan (sumFrom_nonNegOrInf ts zero (by simp [zero, NonNegOrInf]) hprobs)
+    have : checksCur.sumBad sum = checksFixed.sumBad sum := sumBadCur_eq_fixed hsn
+    simp only [this]
+
+theorem all_congr_mem {α : Type} {l : List α} {f g : α → Bool} (h : ∀ a ∈ l, f a = g a) :
+    l.all f = l.all g := by
+  induction l with
+  | nil => rfl
+  | cons a l ih =>
+    simp only [List.all_cons]
+    rw [h a List.mem_cons_self, ih (fun b hb => h b (List.mem_cons_of_mem _ hb))]
+
+theorem machine_cur_eq_fixed {m : Machine} (hnn : InputsSat (· ≠ .nan) m) :
+    machineWith checksCur m = machineWith checksFixed m := by
+  unfold machineWith
+  have h1 : checksCur.fracBad (val64 m.maxPaddingFrac) = checksFixed.fracBad (val64 m.maxPaddingFrac) :=
+    fracBadCur_eq_fixed hnn.paddingFrac
+  have h2 : checksCur.fracBad (val64 m.maxBlockingFrac) = checksFixed.fracBad (val64 m.maxBlockingFrac) :=
+    fracBadCur_eq_fixed hnn.blockingFrac
+  simp only [h1, h2]
+  have hall : m.states.all (stateWith checksCur m.states.length) =
+      m.states.all (stateWith checksFixed m.states.length) := by
+    apply all_congr_mem
+    intro s hs
+    unfold stateWith
+    congr 3
+    apply all_congr_mem
+    intro v hv
+    cases v with
+    | none => rfl
+    | some ts => exact transVec_cur_eq_fixed _ ts (hnn.probs s hs _ hv ts rfl)
+  rw [hall]
+
 end Validate
 end Mb
